@@ -13,7 +13,7 @@ CONSTANTS
   SeqBodies = {"none", "str", "genWithEmpty", "file", "stream", "error"}
   SeqSpells = {"canon", "upper", "list"}
   MaxReq = 2
-  DefectChoices = {{}, {"unsized205"}}
+  DefectChoices = {{}}
 INVARIANT TypeOK
 INVARIANT IConforms
 INVARIANT IFramed
